@@ -80,11 +80,16 @@ def run_budget_history(scn):
             clock.advance(op[1])
             continue
         now = clock.mono_us - clock.base_us
+        if name == "set_max":
+            # the cap of a live budget is re-tuned (plain attribute)
+            real.max_retries = op[1]
+            model.max = op[1]
+            continue
         if name == "consume":
             r = real.consume(op[1])
             m = model.consume(now, op[1])
             if r:
-                grants.extend([now] * op[1])
+                grants.extend([(now, model.max)] * op[1])
         elif name == "remaining":
             r = real.remaining()
             m = model.remaining(now)
